@@ -535,5 +535,7 @@ CLAUSES = [
            '1-9 (symbol, count) tokens from all one/two-letter element symbols, counts omitted or 1-999, repeats; '
            'reference = the token list itself'),
 ]
+# coverage-guided campaigns of the thorough tier: (clause, executions per worker, workers)
+FUZZ = [('C14.parse', 15000, 3), ('C14.roundtrip', 8000, 2)]
 ASSUMPTIONS = ['names never contain a delimiter (cases where a custom delimiter occurs inside a drawn name are excluded and counted)',
                'imbalances strictly between 0 and 1e-6 relative are not generated']
